@@ -14,6 +14,9 @@
 #include <set>
 #include <algorithm>
 #include <cstring>
+#include <atomic>
+#include <chrono>
+#include <thread>
 
 using namespace vp;
 
@@ -22,6 +25,7 @@ struct Call {
   bool cancelled = false; bool done = false; int kind = 0;            // kind: 1 reply, 2 error reply, 3 timeout, 4 disconnected
   std::string token; int notified = 0; bool notify_set = false; bool notify_set_while_pending = false;
   bool stolen = false;
+  bool tq = false;   // its timeout has fired (the NoReply error is queued) but the connection has not dispatched since
 };
 static std::vector<Call>* g_calls;
 static std::vector<std::string> g_log;
@@ -37,6 +41,15 @@ static DBusHandlerResult on_filter(DBusConnection*, DBusMessage* m, void*) {
   int t = dbus_message_get_type(m);
   if (t == DBUS_MESSAGE_TYPE_METHOD_RETURN || t == DBUS_MESSAGE_TYPE_ERROR) g_filtered->push_back(dbus_message_get_reply_serial(m));
   return DBUS_HANDLER_RESULT_NOT_YET_HANDLED;
+}
+
+// ---- watchdog: dbus_pending_call_block is only invoked when the model says it terminates (a reply is there, the peer
+// is gone, or the call has a finite timeout under the virtual clock, where waiting costs no real time)
+static std::atomic<long> g_block_start{0};
+static long real_s() { return (long)std::chrono::duration_cast<std::chrono::seconds>(std::chrono::steady_clock::now().time_since_epoch()).count(); }
+static void watchdog_start() {
+  static bool started = false; if (started) return; started = true;
+  std::thread([] { for (;;) { std::this_thread::sleep_for(std::chrono::milliseconds(250)); long b = g_block_start.load(); if (b && real_s() - b > 30) fail("block-hang", "dbus_pending_call_block did not return within 30 s of real time although the call must complete (reply available, peer closed, or finite timeout under the virtual clock)"); } }).detach();
 }
 
 // ---- harness main loop: timeouts under the virtual clock
@@ -75,11 +88,13 @@ extern "C" int LLVMFuzzerTestOneInput(const uint8_t* data, size_t size) {
   std::vector<uint32_t> written_unpumped;   // reply serials written by the peer but not yet read by the connection
   bool peer_open = true; bool nontrivial = false; uint32_t tok = 0;
   std::vector<uint32_t> expected_filtered;  // multiset of reply serials that must reach ordinary dispatch
+  std::vector<uint32_t> optional_filtered;  // queued timeout errors of calls cancelled before the next dispatch: may or may not be seen as ordinary messages
 
   auto outstanding = [&]() { int n = 0; for (auto& x : calls) if (!x.done && !x.cancelled) n++; return n; };
   auto complete = [&](Call& x, int kind, const std::string& token) { x.done = true; x.kind = kind; x.token = token; };
   // the connection reads what the peer wrote and dispatches: replies pair with the pending call of that serial
   auto model_pump = [&]() {
+    for (auto& x : calls) if (x.tq && !x.done && !x.cancelled) complete(x, 3, "");   // queued timeout errors come first in the incoming queue
     for (uint32_t rs : written_unpumped) {
       bool paired = false;
       for (auto& x : calls) if (x.serial == rs && !x.done && !x.cancelled) { complete(x, 1, ""); paired = true; break; }
@@ -88,7 +103,9 @@ extern "C" int LLVMFuzzerTestOneInput(const uint8_t* data, size_t size) {
     written_unpumped.clear();
     if (!peer_open) for (auto& x : calls) if (!x.done && !x.cancelled) complete(x, 4, "");
   };
-  auto model_time = [&]() { long now = vnow(); for (auto& x : calls) if (!x.done && !x.cancelled && x.due >= 0 && now >= x.due) complete(x, 3, ""); };
+  auto model_time = [&]() { long now = vnow(); for (auto& x : calls) if (!x.done && !x.cancelled && x.due >= 0 && now >= x.due) x.tq = true; };
+  // the harness main loop: due timeouts are handled (each queues its NoReply error), then the connection reads and dispatches
+  auto settle = [&](int iters = 200) { run_timeouts(); model_time(); pump_connection(c, iters); model_pump(); };
   auto check_all = [&](const char* when) {
     for (size_t i = 0; i < calls.size(); i++) {
       Call& x = calls[i];
@@ -99,6 +116,7 @@ extern "C" int LLVMFuzzerTestOneInput(const uint8_t* data, size_t size) {
       if (x.notify_set_while_pending) { int want = x.done ? 1 : 0; if (x.notified != want) fail("notify-count", std::string(when) + ": call #" + std::to_string(i) + " notify ran " + std::to_string(x.notified) + " times, expected " + std::to_string(want)); }
     }
     std::multiset<uint32_t> a(filtered.begin(), filtered.end()), b(expected_filtered.begin(), expected_filtered.end());
+    for (uint32_t o : optional_filtered) if (a.count(o) > b.count(o)) b.insert(o);
     if (a != b) { std::string sa, sb; for (auto v : a) sa += std::to_string(v) + " "; for (auto v : b) sb += std::to_string(v) + " "; fail("reply-routing", std::string(when) + ": replies that reached ordinary dispatch [" + sa + "] but the model expects [" + sb + "] (a reply must pair with the pending call of its serial and with nothing else)"); }
   };
 
@@ -109,8 +127,9 @@ extern "C" int LLVMFuzzerTestOneInput(const uint8_t* data, size_t size) {
       if (!peer_open) continue;
       DBusMessage* m = dbus_message_new_method_call("com.vp.Peer", "/p", "com.vp.I", "Ask");
       if (!m) continue;
-      int tk = (int)pick(f, 5);
-      int timeout = tk == 0 ? 1000 : tk == 1 ? 6000 : tk == 2 ? -1 : tk == 3 ? INT_MAX : 30000;
+      int tk = (int)pick(f, 8);
+      // 0 = times out as soon as the main loop runs; -1 = default (25 s); INT_MAX = never; large finite values are taken as given
+      int timeout = tk == 0 ? 1000 : tk == 1 ? 6000 : tk == 2 ? -1 : tk == 3 ? INT_MAX : tk == 4 ? 30000 : tk == 5 ? 0 : tk == 6 ? 2000000000 : 1 + (int)pick(f, 90000);
       DBusPendingCall* p = nullptr;
       long t0 = vnow();
       if (!dbus_connection_send_with_reply(c, m, &p, timeout) || !p) { dbus_message_unref(m); continue; }
@@ -125,7 +144,7 @@ extern "C" int LLVMFuzzerTestOneInput(const uint8_t* data, size_t size) {
       g_log.push_back("call #" + std::to_string(idx) + " serial " + std::to_string(x.serial) + " timeout " + (timeout == INT_MAX ? "never" : std::to_string(timeout == -1 ? 25000 : timeout) + "ms") + (calls[idx].notify_set ? " +notify" : ""));
       pump_connection(c, 3);   // flush the call to the peer
       { auto fr = peer.read_frames(); for (auto& y : fr) if (y.valid && y.msg.type == T_CALL && y.msg.serial != 0) peer_knows[y.msg.serial] += 0; }
-      model_pump(); run_timeouts(); model_time();
+      model_pump(); settle(3);   // a zero timeout queues its error as soon as the main loop runs and completes the call at the next dispatch
     } else if (k <= 6) {
       if (!peer_open || calls.empty()) continue;
       // the peer writes a reply: for one of the calls (any order), a duplicate, or an unknown serial; whole or split
@@ -144,22 +163,23 @@ extern "C" int LLVMFuzzerTestOneInput(const uint8_t* data, size_t size) {
       written_unpumped.push_back(rs);
       // out-of-order: a reply for a call that is not the oldest outstanding one
       for (auto& x : calls) { if (!x.done && !x.cancelled) { if (x.serial != rs && outstanding() >= 2) nontrivial = true; break; } }
-      if (f.ConsumeBool()) { pump_connection(c); model_pump(); run_timeouts(); model_time(); }
+      if (f.ConsumeBool()) { pump_connection(c); model_pump(); settle(); }
     } else if (k == 7) {
-      long ms = rare(f, 3) ? 26000 : (long)(500 + pick(f, 6) * 1500);
-      g_log.push_back("clock advances " + std::to_string(ms) + " ms" + (written_unpumped.empty() ? "" : " (with " + std::to_string(written_unpumped.size()) + " replies written but unread)"));
+      long ms = rare(f, 3) ? 26000 : rare(f, 10) ? 2100000000L : (long)(500 + pick(f, 6) * 1500);
+      bool no_dispatch = rare(f, 3);   // the timeouts are handled but the application does not get to dispatch before the next operation
+      g_log.push_back("clock advances " + std::to_string(ms) + " ms" + (written_unpumped.empty() ? "" : " (with " + std::to_string(written_unpumped.size()) + " replies written but unread)") + (no_dispatch ? "; timeouts handled, no dispatch yet" : ""));
       if (!written_unpumped.empty() && outstanding() >= 2) nontrivial = true;
       vclock_advance(ms);
-      run_timeouts(); model_time();          // the harness loop handles due timeouts first ...
-      pump_connection(c); model_pump();      // ... then lets the connection read
-      run_timeouts(); model_time();
+      if (no_dispatch) { run_timeouts(); model_time(); }
+      else { settle(); settle(); }   // the harness loop handles due timeouts first, then lets the connection read
     } else if (k == 8) {
       if (calls.empty()) continue;
       size_t i = pick(f, calls.size()); Call& x = calls[i];
       if (x.cancelled || x.stolen) continue;
       g_log.push_back("cancel call #" + std::to_string(i) + (x.done ? " (already completed)" : ""));
+      g_log.back() += x.tq && !x.done ? " (its timeout error is queued, not yet dispatched)" : "";
       dbus_pending_call_cancel(x.p);
-      if (!x.done) { x.cancelled = true; if (!written_unpumped.empty() && outstanding() >= 1) nontrivial = true; }
+      if (!x.done) { x.cancelled = true; if (x.tq) { optional_filtered.push_back(x.serial); nontrivial = true; } if (!written_unpumped.empty() && outstanding() >= 1) nontrivial = true; }
     } else if (k == 9) {
       if (calls.empty()) continue;
       size_t i = pick(f, calls.size()); Call& x = calls[i];
@@ -168,15 +188,17 @@ extern "C" int LLVMFuzzerTestOneInput(const uint8_t* data, size_t size) {
       g_log.push_back("block on call #" + std::to_string(i) + " (serial " + std::to_string(x.serial) + ")");
       // model: everything written is read; this call completes with its reply if one is there, else by timeout at its due time
       bool have = std::find(written_unpumped.begin(), written_unpumped.end(), x.serial) != written_unpumped.end();
+      watchdog_start(); g_block_start = real_s();
       dbus_pending_call_block(x.p);
+      g_block_start = 0;
+      if (!x.done && x.tq) complete(x, 3, "");   // its queued timeout error is the first message in the queue with this reply serial
       if (!x.done) { if (have || !peer_open) { model_pump(); } else { model_pump(); if (!x.done) complete(x, peer_open ? 3 : 4, ""); } }
       else model_pump();
       if (!dbus_pending_call_get_completed(x.p)) fail("block-returned-incomplete", "dbus_pending_call_block returned but the call is not completed");
-      run_timeouts(); model_time();
-      pump_connection(c); model_pump();
+      settle();
     } else if (k == 10) {
       g_log.push_back("dispatch");
-      pump_connection(c); model_pump(); run_timeouts(); model_time();
+      pump_connection(c); model_pump(); settle();
     } else if (k == 11) {
       if (calls.empty()) continue;
       size_t i = pick(f, calls.size()); Call& x = calls[i];
@@ -202,12 +224,12 @@ extern "C" int LLVMFuzzerTestOneInput(const uint8_t* data, size_t size) {
       g_log.push_back("peer closes its socket (" + std::to_string(outstanding()) + " calls outstanding)");
       if (outstanding() >= 1) nontrivial = true;
       peer.close_peer(); peer_open = false;
-      pump_connection(c); model_pump(); run_timeouts(); model_time();
+      pump_connection(c); model_pump(); settle();
     }
     check_all(g_log.empty() ? "" : g_log.back().c_str());
   }
   // end: let everything finite time out, then every non-cancelled call with a finite timeout (or a dead peer) is completed exactly once
-  vclock_advance(40000); run_timeouts(); model_time(); pump_connection(c); model_pump(); run_timeouts(); model_time();
+  vclock_advance(40000); settle(); settle();
   g_log.push_back("end: 40 s pass");
   check_all("at the end");
   stats_class(nontrivial ? "nontrivial" : "trivial");
